@@ -96,8 +96,8 @@ pub fn legs(prop: &str, tier: Tier) -> Vec<Leg> {
         }
         "C19" => {
             if n && !simd {
-                // runs = base walks x 48 fault plans (none, refuse_from 1..16, refuse_once 1..16, budget 0..14)
-                vec![leg("mem", "mem", 48 * if q { 1_000 } else { 30_000 }, &["plan.fired", "mlock_refused.refuse_from", "mlock_refused.refuse_once", "mlock_refused.budget"])]
+                // runs = base walks x 56 fault plans (none, refuse_from 1..16, refuse_once 1..16, budget 0..14, refuse_all_from 1..8)
+                vec![leg("mem", "mem", 56 * if q { 900 } else { 26_000 }, &["plan.fired", "mlock_refused.refuse_from", "mlock_refused.refuse_once", "mlock_refused.budget", "mlock_refused.refuse_all_from"])]
             } else {
                 vec![]
             }
@@ -195,7 +195,7 @@ pub fn meta(prop: &str, tier: Tier, seed: u64) -> ReportMeta {
         ),
         "C19" => (
             "fault_enumeration",
-            "base walks of the C14 workload are sampled from the seed; for each base walk the refusal space is enumerated: plan 0 = none, refuse_from(k) for k = 1..16 (ENOMEM/EPERM), refuse_once(k, EAGAIN) for k = 1..16, budget(B pages) for B = 0..14 — 48 executions per walk, the policy caps a walk at 16 lock requests and 14 locked pages so that every k and B of the walk is covered. Judged: every Result-returning constructor/transition returns (no unwind, worker survives); after a refusal every live region still satisfies the C14 invariants; released blocks are wiped; VmLck == 0 and no page left protected at the end. distinct = distinct run shape among executions in which a refusal fired.".to_string(),
+            "base walks of the C14 workload are sampled from the seed; for each base walk the refusal space is enumerated: plan 0 = none, refuse_from(k) for k = 1..16 (ENOMEM/EPERM), refuse_once(k, EAGAIN) for k = 1..16, budget(B pages) for B = 0..14, refuse_all_from(k, EPERM: locking and unlocking both denied) for k = 1..8 — 56 executions per walk, the policy caps a walk at 16 lock requests and 14 locked pages so that every k and B of the walk is covered. Judged: every Result-returning constructor/transition returns (no unwind, worker survives); after a refusal every live region still satisfies the C14 invariants; released blocks are wiped; VmLck == 0 and no page left protected at the end. distinct = distinct run shape among executions in which a refusal fired.".to_string(),
             vec!["a refusal is injected instead of the system call (limit-check model: the range is untouched)".to_string(), "operations whose signature returns no Result (clone, resize, Default, new_bytes on locked types) are documented to panic and may".to_string(), "base walks are sampled; only the refusal index / budget dimension is enumerated".to_string()],
             {
                 let mut v = real_common.clone();
@@ -216,7 +216,7 @@ pub fn meta(prop: &str, tier: Tier, seed: u64) -> ReportMeta {
         components_real: real,
         components_stub: stub,
         extra: if prop == "C19" {
-            serde_json::json!({"exhaustive": false, "enumerated_dimension": "per base walk: refuse_from k=1..16, refuse_once k=1..16, budget B=0..14 (48 plans incl. none)", "plans_per_walk": 48})
+            serde_json::json!({"exhaustive": false, "enumerated_dimension": "per base walk: refuse_from k=1..16, refuse_once k=1..16, budget B=0..14, refuse_all_from (mlock and munlock) k=1..8 (56 plans incl. none)", "plans_per_walk": 56})
         } else {
             serde_json::json!({})
         },
